@@ -333,7 +333,7 @@ package client
 //@ watch WF = call (*mime/multipart.Writer).WriteField
 //@ watch LC = call logClose
 //@ watch CT = invoke (interface).ContentType tag calls(CRP)
-//@ watch RD = invoke (io.Reader).Read tag calls(CRP)
+//@ watch RD = call io.ReadFull tag calls(CRP)
 //@ watch DCT = call net/http.DetectContentType tag calls(CRP)
 //@ watch NR = call runtime.NamedReader tag calls(CRP)
 //@ watch HS = call (net/textproto.MIMEHeader).Set
@@ -347,15 +347,15 @@ package client
 //@ watch NB = call bytes.NewReader tag calls(CRP)
 //@ requires r != nil && mp != nil && pw != nil
 //@ requires forall k string, j int :: in(k, r.fileFields) && 0 <= j && j < len(mapat(r.fileFields, k)) ==> mapat(r.fileFields, k)[j] != nil
-//@ stable r.fileFields[*][*], r.formFields[*][*], comp:G!io.EOF
+//@ stable r.fileFields[*][*], r.formFields[*][*], comp:G!io.EOF, comp:G!io.ErrUnexpectedEOF
 //@ spec quiet() := calls(D1) == 0 && calls(D2) == 0 && (forall n int :: called(WF,n) ==> ret(WF,n,0) == nil)
-//@ spec partsOK() := (forall n int :: called(RD,n) ==> n < calls(CRP) && (ret(RD,n,1) == nil || ret(RD,n,1) == io.EOF)) && (forall n int :: called(CRP,n) ==> ret(CRP,n,1) == nil) && (forall n int :: called(DCT,n) ==> n < calls(CRP))
+//@ spec partsOK() := (forall n int :: called(RD,n) ==> n < calls(CRP) && (ret(RD,n,1) == nil || ret(RD,n,1) == io.EOF || ret(RD,n,1) == io.ErrUnexpectedEOF)) && (forall n int :: called(CRP,n) ==> ret(CRP,n,1) == nil) && (forall n int :: called(DCT,n) ==> n < calls(CRP))
 //@ spec copyFaults() := forall n int :: called(CPY,n) && ret(CPY,n,1) != nil ==> exists m int :: called(LC,m) && arg(LC,m,0) == ret(CPY,n,1) && arg(LC,m,1) == pw
-//@ spec sniffed() := forall n int :: called(DCT,n) ==> called(RD,n) && arrayof(arg(DCT,n,0)) == arrayof(arg(RD,n,0)) && offof(arg(DCT,n,0)) == offof(arg(RD,n,0)) && len(arg(DCT,n,0)) == ret(RD,n,0)
-//@ spec source(p) := called(CT,p) ? recv(CT,p) : recv(RD,p)
+//@ spec sniffed() := forall n int :: called(DCT,n) ==> called(RD,n) && arrayof(arg(DCT,n,0)) == arrayof(arg(RD,n,1)) && offof(arg(DCT,n,0)) == offof(arg(RD,n,1)) && len(arg(DCT,n,0)) == ret(RD,n,0)
+//@ spec source(p) := called(CT,p) ? recv(CT,p) : arg(RD,p,0)
 //@ spec partHeaders() := calls(HS) == 2*calls(CRP) && calls(EQ) == 2*calls(CRP) && forall p int :: called(CRP,p) ==> arg(CRP,p,0) == mp && arg(HS,2*p,0) == arg(CRP,p,1) && arg(HS,2*p+1,0) == arg(CRP,p,1) && arg(HS,2*p,1) == "Content-Disposition" && arg(HS,2*p,2) == ret(SPF,p,0) && arg(HS,2*p+1,1) == "Content-Type" && (called(CT,p) || called(DCT,p)) && arg(HS,2*p+1,2) == (called(CT,p) ? ret(CT,p,0) : ret(DCT,p,0))
 //@ spec partNames() := forall p int :: called(CRP,p) ==> arg(SPF,p,0) == "form-data; name=\"%s\"; filename=\"%s\"" && argv(SPF,p,1,0) == boxof(ret(EQ,2*p,0)) && argv(SPF,p,1,1) == boxof(ret(EQ,2*p+1,0)) && arg(EQ,2*p+1,0) == ret(BASE,p,0) && arg(BASE,p,0) == ret(NM,p,0)
-//@ spec partContent() := forall p int :: called(CPY,p) ==> called(CRP,p) && arg(CPY,p,0) == ret(CRP,p,0) && (called(CT,p) ==> arg(CPY,p,1) == recv(CT,p)) && (!called(CT,p) ==> called(RD,p) && arg(CPY,p,1) == ret(NR,p,0) && arg(NR,p,1) == ret(MR,p,0) && argv(MR,p,0,0) == boxas(ret(NB,p,0), "*bytes.Reader") && argv(MR,p,0,1) == recv(RD,p) && arrayof(arg(NB,p,0)) == arrayof(arg(RD,p,0)) && offof(arg(NB,p,0)) == offof(arg(RD,p,0)) && len(arg(NB,p,0)) == ret(RD,p,0))
+//@ spec partContent() := forall p int :: called(CPY,p) ==> called(CRP,p) && arg(CPY,p,0) == ret(CRP,p,0) && (called(CT,p) ==> arg(CPY,p,1) == recv(CT,p)) && (!called(CT,p) ==> called(RD,p) && arg(CPY,p,1) == ret(NR,p,0) && arg(NR,p,1) == ret(MR,p,0) && argv(MR,p,0,0) == boxas(ret(NB,p,0), "*bytes.Reader") && argv(MR,p,0,1) == arg(RD,p,0) && arrayof(arg(NB,p,0)) == arrayof(arg(RD,p,1)) && offof(arg(NB,p,0)) == offof(arg(RD,p,1)) && len(arg(NB,p,0)) == ret(RD,p,0))
 //@ spec fieldSent(k, j) := exists n int :: called(WF,n) && arg(WF,n,0) == mp && arg(WF,n,1) == k && arg(WF,n,2) == mapat(r.formFields, k)[j]
 //@ spec fileSent(k, j) := exists p int :: called(CPY,p) && source(p) == mapat(r.fileFields, k)[j]
 //@ loop 0 invariant quiet() && calls(LC) == 0 && calls(RD) == 0 && calls(DCT) == 0 && calls(CRP) == 0 && calls(CPY) == 0 && calls(HS) == 0 && calls(EQ) == 0 && 0 <= mappos && mappos <= mapcard
@@ -384,12 +384,12 @@ package client
 //@ loop 3 invariant partContent() && (forall p int :: called(CT,p) ==> p < calls(CRP)) && (forall p int :: called(CPY,p) ==> p < calls(CRP))
 //@ loop 3 invariant forall k string, j int :: in(k, r.fileFields) && 0 <= j && j < len(mapat(r.fileFields, k)) ==> mapat(r.fileFields, k)[j] != nil
 //@ loop 3 invariant in(outer(mapkey(mappos-1)), r.fileFields) && f == mapat(r.fileFields, outer(mapkey(mappos-1))) && 0 < outer(mappos)
-//@ assume after RD forall n int :: called(RD,n) ==> 0 <= ret(RD,n,0) && ret(RD,n,0) <= len(arg(RD,n,0))
+//@ assume after RD forall n int :: called(RD,n) ==> 0 <= ret(RD,n,0) && ret(RD,n,0) <= len(arg(RD,n,1))
 //@ assume after CRP forall n int :: called(CRP,n) && ret(CRP,n,1) == nil ==> ret(CRP,n,0) != nil
 //@ ensures [C12:alwaysclose] calls(D1) == 1
 //@ ensures [C12:filesclosed] calls(D2) == 1
 //@ ensures [C12:fieldfault] forall n int :: called(WF,n) && ret(WF,n,0) != nil ==> exists m int :: called(LC,m) && arg(LC,m,0) == ret(WF,n,0) && arg(LC,m,1) == pw
-//@ ensures [C12:readfault] forall n int :: called(RD,n) && ret(RD,n,1) != nil && ret(RD,n,1) != io.EOF ==> exists m int :: called(LC,m) && arg(LC,m,0) == ret(RD,n,1) && arg(LC,m,1) == pw
+//@ ensures [C12:readfault] forall n int :: called(RD,n) && ret(RD,n,1) != nil && ret(RD,n,1) != io.EOF && ret(RD,n,1) != io.ErrUnexpectedEOF ==> exists m int :: called(LC,m) && arg(LC,m,0) == ret(RD,n,1) && arg(LC,m,1) == pw
 //@ ensures [C12:partfault] forall n int :: called(CRP,n) && ret(CRP,n,1) != nil ==> exists m int :: called(LC,m) && arg(LC,m,0) == ret(CRP,n,1) && arg(LC,m,1) == pw
 //@ ensures [C12:copyfault] forall n int :: called(CPY,n) && ret(CPY,n,1) != nil ==> exists m int :: called(LC,m) && arg(LC,m,0) == ret(CPY,n,1) && arg(LC,m,1) == pw
 //@ ensures [C11:everyfield] calls(LC) == 0 ==> forall k string, j int :: in(k, r.formFields) && 0 <= j && j < len(mapat(r.formFields, k)) ==> exists n int :: called(WF,n) && arg(WF,n,0) == mp && arg(WF,n,1) == k && arg(WF,n,2) == mapat(r.formFields, k)[j]
@@ -397,7 +397,7 @@ package client
 //@ ensures [C11:parttype] partHeaders()
 //@ ensures [C11:partname] partNames()
 //@ ensures [C11:partcontent] partContent()
-//@ ensures [C11:sniff] forall n int :: called(DCT,n) ==> called(RD,n) && arrayof(arg(DCT,n,0)) == arrayof(arg(RD,n,0)) && offof(arg(DCT,n,0)) == offof(arg(RD,n,0)) && len(arg(DCT,n,0)) == ret(RD,n,0)
+//@ ensures [C11:sniff] forall n int :: called(DCT,n) ==> called(RD,n) && arrayof(arg(DCT,n,0)) == arrayof(arg(RD,n,1)) && offof(arg(DCT,n,0)) == offof(arg(RD,n,1)) && len(arg(DCT,n,0)) == ret(RD,n,0)
 
 // ---------------------------------------------------------------- request.go: buildHTTP (C10, C11, C12)
 // WriteToRequest and AuthenticateRequest are the caller's code; they fill the request through its
